@@ -62,8 +62,16 @@ def run_case(case):
             return {'violations': viol, 'transitions': 1}
     finally:
         c.set_sim_params({})
-    span = equipment['Span']['default']
+    # Span settings of the equipment DOCUMENT (a loader or a design step that changes them must not change the oracle)
+    class _Span:
+        padding = eq['Span'][0]['padding']
+        max_length = eq['Span'][0]['max_length']          # km (length_units of every library used here)
+        power_mode = eq['Span'][0]['power_mode']
+    assert eq['Span'][0].get('length_units', 'km') == 'km'
+    span = _Span
     power_mode = span.power_mode
+    for d in c.settings_vs_document(equipment, eq)[:2]:
+        v('library-settings-changed', f'after design, {d}')
     tags = {'library-used-before': 1} if case.get('used_library') else {}
     uids = [n.uid for n in net.nodes()]
     if len(set(uids)) != len(uids):
